@@ -1,6 +1,6 @@
 """C18 -- fast FFT lengths are the nearest 7-smooth numbers for every N.
 
-Enumerated exhaustively: every N below a bound, N in {s-1, s, s+1} for 7-smooth s < 2^62,
+Enumerated exhaustively: every N below a bound, N in {s-3..s+3, midpoints} for 7-smooth s < 2^62,
 fast_len(z) for every signal length 0..LMAX on every class.  Oracle: bisect in the
 independently generated sorted list of all 7-smooth numbers < 2^64.
 """
@@ -26,7 +26,7 @@ def describe(tier):
     b = BOUNDS[tier]
     return {
         "bounds": {"exhaustive_N_below": 2 ** b["exh_bits"],
-                   "around_every_smooth_below": "2^62 (%s of the 75711)" % b["around"],
+                   "around_every_smooth_below": "2^62 (%s of the 75711): offsets -3..+3 and the midpoint to the next smooth number (+0, +1)" % b["around"],
                    "signal_lengths": [0, b["lmax"]]},
         "alphabet": ["next_fast_len(N)", "prev_fast_len(N)", "fast_len(z) on 6 classes x 2 rates x start/none",
                      "N as Python int (and numpy.int64 for N < 4096)"],
@@ -93,7 +93,8 @@ def check_case(case):
     elif kind == "around":
         for i in case["idx"]:
             s = lst[i]
-            for n in (s - 1, s, s + 1):
+            mid = (s + lst[i + 1]) // 2             # a number far from every 7-smooth number at this scale
+            for n in (s - 3, s - 2, s - 1, s, s + 1, s + 2, s + 3, mid, mid + 1):
                 if n < 0:
                     continue
                 _check_value(res, "next_fast_len", n, nfl(n), smooth.ref_next(n, lst), case)
